@@ -159,7 +159,15 @@ func c06Build(w *sessmc.World, c c06Case) (*sessmc.In, time.Time) {
 	comp := func(tag int, v int) {
 		switch c06Comp[v] {
 		case "wrong":
-			in.Set = append(in.Set, fixscan.Field{tag, "EVIL"})
+			// a foreign identity, or the right one in the wrong letter case (CompIDs are compared exactly)
+			wrong := "EVIL"
+			if (c.State+c.Ty+c.Time+c.Seq)%2 == 0 {
+				wrong = strings.ToLower(sessmc.PeerComp)
+				if tag == 56 {
+					wrong = strings.ToLower(sessmc.OurComp)
+				}
+			}
+			in.Set = append(in.Set, fixscan.Field{tag, wrong})
 		case "empty":
 			in.Set = append(in.Set, fixscan.Field{tag, ""})
 		case "missing":
